@@ -10,12 +10,13 @@ import JsonV.Spec.Grammar
 import JsonV.Lemmas.WireBasic
 import JsonV.Lemmas.WireNumberScan
 import JsonV.Lemmas.WireString
+import JsonV.Lemmas.WireValue
 import JsonV.Gen.Constants
 import JsonV.Gen.Tables
 
 namespace JsonV.Props.C01
 open JsonV JsonV.Model.Wire JsonV.Model.Validate JsonV.Spec.Grammar
-open JsonV.Lemmas.WireBasic JsonV.Lemmas.WireNumber JsonV.Lemmas.WireString
+open JsonV.Lemmas.WireBasic JsonV.Lemmas.WireNumber JsonV.Lemmas.WireString JsonV.Lemmas.WireValue
 
 /-! ### Tie A: regenerated constants and tables = what the models use -/
 
@@ -185,5 +186,47 @@ def string_iff_full : Prop :=
 
 -- `"a\u00e9"` + `,` : 10 bytes accepted, non-verbatim (flag 1) and non-canonical (flag 2: é must not be escaped)
 example : consumeString [0x22, 0x61, 0x5C, 0x75, 0x30, 0x30, 0x65, 0x39, 0x22, 0x2C] true = (9, ⟨true, true⟩, .ok) := by decide
+
+/-! ### Values: the validator (Value.IsValid / ReadValue) against the grammar -/
+
+/-- the grammar options selected by the decoder options -/
+def gopts (o : VOpts) : GOpts := ⟨!o.allowInvalidUTF8, o.allowDup⟩
+
+/-- the text names are compared by: the model of what `objectNamespace.insertQuoted` stores
+(the name unescaped by AppendUnquote, or its inner bytes when the scanner found it verbatim) -/
+def nameKey (o : VOpts) (quoted : Bytes) : Bytes := unescapedName quoted (valueString o quoted).2.1
+
+/-- Soundness, names not judged: whatever `consumeValue` accepts at depth `d + 1` (the decoder's
+one-based depth) is a value of the RFC 8259 grammar nested at most `maxNestingDepth` deep, with
+strings in the selected UTF-8 mode (the grammar instance with `allowDup := true`). -/
+theorem value_sound_partial (o : VOpts) (fuel d : Nat) (r : Bytes) (n : Nat) (hd : d ≤ maxNestingDepth)
+    (h : consumeValue o fuel (d + 1) r = (n, .ok)) :
+    n ≤ r.length ∧ JValue ⟨!o.allowInvalidUTF8, true⟩ maxNestingDepth id d (r.take n) :=
+  (sound_all o fuel).1 d r n hd h
+
+/-- Soundness of `Value.IsValid`'s framing (names not judged): accepted ⇒ `ws value ws`. -/
+theorem valid_sound_partial (o : VOpts) (b : Bytes) (h : isValid o b = true) :
+    JText ⟨!o.allowInvalidUTF8, true⟩ maxNestingDepth id b := by
+  unfold isValid at h
+  have : (validText o b).2 = .ok := by simpa using h
+  exact validText_sound o b (validText o b).1 (Prod.ext rfl this)
+
+/-- The full statements.  `valid_sound_full` adds the uniqueness of names (as compared by `nameKey`)
+to `valid_sound_partial`; `valid_complete_full` is the converse; `stream_iff_full` is the stream
+recogniser.  They are validated by the correspondence runs, not proved. -/
+def valid_sound_full : Prop :=
+  ∀ (o : VOpts) (b : Bytes), isValid o b = true → JText (gopts o) maxNestingDepth (nameKey o) b
+
+def valid_complete_full : Prop :=
+  ∀ (o : VOpts) (b : Bytes), JText (gopts o) maxNestingDepth (nameKey o) b → isValid o b = true
+
+def stream_iff_full : Prop :=
+  ∀ (o : VOpts) (b : Bytes), (∃ cnt, stream o b = (cnt, b.length, .ioEOF)) ↔ JStream (gopts o) maxNestingDepth (nameKey o) b
+
+-- `[1,{"a":null}] ` is accepted; `[1,]` is rejected at offset 3; two equal names are rejected unless allowed
+example : isValid {} [0x5B, 0x31, 0x2C, 0x7B, 0x22, 0x61, 0x22, 0x3A, 0x6E, 0x75, 0x6C, 0x6C, 0x7D, 0x5D, 0x20] = true := by decide +kernel
+example : validText {} [0x5B, 0x31, 0x2C, 0x5D] = (3, .invalidChar) := by decide +kernel
+example : validText {} [0x7B, 0x22, 0x61, 0x22, 0x3A, 0x31, 0x2C, 0x22, 0x61, 0x22, 0x3A, 0x32, 0x7D] = (7, .dupName) := by decide +kernel
+example : isValid ⟨false, true⟩ [0x7B, 0x22, 0x61, 0x22, 0x3A, 0x31, 0x2C, 0x22, 0x61, 0x22, 0x3A, 0x32, 0x7D] = true := by decide +kernel
 
 end JsonV.Props.C01
